@@ -30,6 +30,13 @@ func verifTransport(sock string) *http.Transport {
 func verifLogger() *slog.Logger { return slog.New(slog.NewTextHandler(io.Discard, nil)) }
 
 func VerifNewVerifyClient(sock string, timeout time.Duration) *VerifClient {
+	// the production constructor, with only the dialled socket path replaced: every other setting of the
+	// client and its transport (timeouts, keep-alives) is the one the controller runs with
+	vc := newVerifyClient(timeout)
+	if tr, ok := vc.client.Transport.(*http.Transport); ok {
+		tr.DialContext = func(_ context.Context, _, _ string) (net.Conn, error) { return net.Dial("unix", sock) }
+		return &VerifClient{c: vc}
+	}
 	return &VerifClient{c: &verifyClient{client: &http.Client{Transport: verifTransport(sock)}, timeout: timeout}}
 }
 
